@@ -196,13 +196,21 @@ def handleEvent (d : DS) (toks : List String) : DS × String :=
          | _, none => fail d s!"add {s} {k}: more batches in flight than submitters")
     | .fetching, _, _ => fail d "bad add line"
     | ph, _, _ => fail d s!"AddSequencedLeaves([{s},+{k})) while no pass is running (phase {repr ph}): the gate was closed or the pass was over"
-  | "addret" :: s :: k :: v :: _ =>
+  | "addret" :: s :: k :: v :: rest =>
     match d.phase, s.toNat?, k.toNat? with
     | .fetching, some s, some k =>
       (match findSub d.ps.subs (s, k) with
        | none => fail d s!"addret {s} {k}: not in flight"
        | some j =>
          if v = "ok" then ok { d with ps := pstep c d.ps (.ack j) }
+         else if v = "partial" then
+           -- the destination refused some leaves of the batch (per-leaf statuses in an OK reply). A submitter that checks
+           -- `rsp.Results` (regenerated flag) fails the batch; one that does not takes the reply for a success.
+           let refused : List Nat := match rest with
+             | r :: _ => (r.splitOn ",").filterMap String.toNat?
+             | [] => []
+           if Gen.addSeqChecksResults then ok { d with ps := pstep c d.ps (.ackPartial j refused) }
+           else ok { d with ps := pstep c d.ps (.ack j) }
          else if v = "quota" then ok { d with ps := pstep c d.ps (.quota j), retried := if c.retryQuota then (s, k) :: d.retried else d.retried }
          else ok { d with ps := pstep c d.ps (.fatal j) })
     | _, _, _ => fail d "addret outside a pass"
